@@ -177,6 +177,8 @@ PLANS["C01"] = {
                "thorough": ["as quick, application order with 4 operators"]},
     "explanation": "Partial: decided are (a) the reduction of an operand array under a given order (Verus, all sizes), (b) the order function (bounded), (c) unary composition (bounded), (d) the unary/binary role of signs (complete).",
 }
+PLANS["C01"]["native_probes"] = {t: [("u6::flat_perm_desc_40", 30000), ("u6::flat_ltr_40", 30000), ("u6::deep_ltr_40", 30000), ("u4::unary_append_big", 30000)] for t in ("quick", "thorough")}
+PLANS["C01"]["bounds"]["quick"].append("sampled native probes (not proofs): order functions with 40 operators, unary chains of 15..=20 functions, 30000 palette inputs each")
 PLANS["C13"] = {
     "level": "model_checking",
     "kani": {"quick": ["u5::is_operator_binary_all", "u5::numeric_text_4"], "thorough": ["u5::is_operator_binary_all", "u5::numeric_text_4", "u5::numeric_text_6"]},
@@ -220,6 +222,8 @@ PLANS["C15"] = {
                "thorough": ["as quick, plus 3 nodes with symbolic shape and application order, plus the concrete shapes x x x, y x y x and x L y x"]},
     "explanation": "Bounded: eval_flatex_consuming_vars agrees with eval_flatex_cloning and with an independent reference reduction; no moved-out value reaches an operator; single-occurrence variables are not cloned.",
 }
+PLANS["C15"]["native_probes"] = {t: [("c15::consuming_vs_cloning_5", 50000), ("c15::consuming_vs_cloning_36", 20000)] for t in ("quick", "thorough")}
+PLANS["C15"]["bounds"]["quick"].append("sampled native probes (not proofs): 5 nodes (50000 palette inputs) and 36 nodes (20000 palette inputs)")
 PLANS["C04"] = {
     "level": "model_checking",
     "kani": {"quick": ["c04::arity_eval", "c04::arity_eval_relaxed", "c04::arity_eval_vec_1", "c04::arity_eval_vec_3", "c04::arity_eval_iter_1", "c04::arity_eval_iter_3"],
